@@ -3,6 +3,7 @@ package main
 import (
 	"fmt"
 	"go/constant"
+	"go/token"
 	"go/types"
 	"os"
 	"sort"
@@ -37,17 +38,25 @@ func (fr *Frame) call(instr ssa.Instruction, common *ssa.CallCommon, st *State, 
 	if fr.root != nil {
 		env = fr.root
 	}
+	if env != fr {
+		env.inner = fr
+	}
 	for _, a := range anns {
 		if !a.After {
 			env.applyCallAnn(a, recv, args, nil, pre, st, R)
 		}
 	}
+	env.inner = nil
 	rv := fr.call1(instr, common, st, R)
+	if env != fr {
+		env.inner = fr
+	}
 	for _, a := range anns {
 		if a.After {
 			env.applyCallAnn(a, recv, args, &rv, pre, st, R)
 		}
 	}
+	env.inner = nil
 	return rv
 }
 
@@ -103,6 +112,7 @@ func (fr *Frame) inlinedWithoutContract(common *ssa.CallCommon, stack []*ssa.Fun
 type callSite struct {
 	key   string
 	names []string
+	text  string // source text of the call expression
 }
 
 // expandedSites: the call sites of fn in source order, with the call sites of every contract-less repository function
@@ -117,11 +127,21 @@ func (fr *Frame) expandedSites(fn *ssa.Function, path string, stack []*ssa.Funct
 			}
 		}
 	}
-	sort.SliceStable(instrs, func(i, j int) bool { return instrs[i].Pos() < instrs[j].Pos() })
+	// order: by the closing parenthesis of the call expression, so that a call written inside the argument list of
+	// another one (which runs first) also counts first - the order does not change when a sequence of statements is
+	// turned into a helper call placed in an argument position
+	rp := fr.c.W.callRparens(fn)
+	key := func(ins ssa.Instruction) token.Pos {
+		if r, ok := rp[ins.Pos()]; ok {
+			return r
+		}
+		return ins.Pos()
+	}
+	sort.SliceStable(instrs, func(i, j int) bool { return key(instrs[i]) < key(instrs[j]) })
 	var out []callSite
 	for _, ins := range instrs {
 		common := ins.(ssa.CallInstruction).Common()
-		out = append(out, callSite{siteKey(path, ins), fr.callNames(common)})
+		out = append(out, callSite{siteKey(path, ins), fr.callNames(common), fr.c.W.callText(fn, ins.Pos())})
 		if _, isGo := ins.(*ssa.Go); isGo {
 			continue
 		}
@@ -149,6 +169,9 @@ func (fr *Frame) matchCallAnns(instr ssa.Instruction, common *ssa.CallCommon) []
 			m := map[string]int{}
 			n := 0
 			for _, s := range sites {
+				if a.Text != "" && !strings.Contains(s.text, a.Text) {
+					continue
+				}
 				for _, nm := range s.names {
 					if nm == a.Callee {
 						n++
@@ -213,24 +236,35 @@ func (fr *Frame) applyCallAnn(a *CallAnn, recv *Val, args []Val, ret *Val, pre, 
 		vars[k] = v
 	}
 	fr.bindLocals(vars, st, nil)
+	// a call site inside a contract-less helper expanded in place: the helper's own locals (its parameters, the
+	// variables of the statements that were moved into it) come first, the names of the function under contract after
+	loopFr := fr
+	if fr.inner != nil {
+		iv := map[string]Val{}
+		fr.inner.bindLocals(iv, st, nil)
+		for k, v := range iv {
+			vars[k] = v
+		}
+		loopFr = fr.inner
+	}
 	// inside a range loop over a slice: idx = index of the element being processed (= completed iterations)
-	if fr.curBlock != nil {
+	if loopFr.curBlock != nil {
 		var best *ssa.Phi
-		for _, b := range fr.fn.Blocks {
-			if !(b == fr.curBlock || b.Dominates(fr.curBlock)) {
+		for _, b := range loopFr.fn.Blocks {
+			if !(b == loopFr.curBlock || b.Dominates(loopFr.curBlock)) {
 				continue
 			}
 			for _, ins := range b.Instrs {
 				if phi, ok := ins.(*ssa.Phi); ok && phi.Comment == "rangeindex" {
-					if _, have := fr.vals[phi]; have && (best == nil || best.Block().Dominates(b)) {
+					if _, have := loopFr.vals[phi]; have && (best == nil || best.Block().Dominates(b)) {
 						best = phi
 					}
 				}
 			}
 		}
 		if best != nil {
-			if _, dup := vars["idx"]; !dup {
-				vars["idx"] = Val{T: types.Typ[types.Int], L: []string{app("bvadd", fr.vals[best].L[0], bvU(1, 64))}}
+			if _, dup := vars["idx"]; !dup || loopFr != fr {
+				vars["idx"] = Val{T: types.Typ[types.Int], L: []string{app("bvadd", loopFr.vals[best].L[0], bvU(1, 64))}}
 			}
 		}
 	}
